@@ -694,7 +694,7 @@ def conformance_simple(v, sc, cfg, rec, limit=0):
     stage_specs(sub)
     shutil.copy(rec["obs"], os.path.join(sub, "trace.ndjson"))
     module = "Trace_SimpleV%d" % cfg["ver"]
-    consts = "  SyncGraceful = FALSE\n  CompleteBeforeWait = FALSE\n" if cfg["ver"] == 1 else "  ReleaseBeforeHandle = FALSE\n"
+    consts = "  SyncGraceful = FALSE\n  CompleteBeforeWait = FALSE\n" if cfg["ver"] == 1 else "  ReleaseBeforeHandle = FALSE\n  OutCap = %d\n" % max(cfg["H"] // 10, cfg["nc"])
     open(os.path.join(sub, "TS.cfg"), "w").write(
         "SPECIFICATION TSpec\nCONSTANTS\n  H = %d\n  Items = 100000\n%s"
         "INVARIANTS NotDone TraceInvariants\nVIEW TView\nCHECK_DEADLOCK FALSE\n" % (cfg["H"], consts))
